@@ -136,6 +136,8 @@ pub struct RvaCall<'a> {
     pub cpu_seconds: u64,
     /// file name (raw bytes) under which a copy of the base file is handed to the CLI instead
     pub raw_base: Option<Vec<u8>>,
+    /// "full" | "closed": see `T2Spec::stdout_fault`
+    pub stdout_fault: Option<&'a str>,
 }
 
 const OUT_CAP: usize = 32 << 20;
@@ -196,8 +198,28 @@ pub fn run_rva(c: &RvaCall) -> std::io::Result<T2Run> {
         .env("PATH", "/usr/bin:/bin")
         .current_dir(&c.sandbox.dir)
         .stdin(Stdio::null())
-        .stdout(Stdio::piped())
         .stderr(Stdio::piped());
+    match c.stdout_fault {
+        Some("full") => {
+            cmd.stdout(std::fs::OpenOptions::new().write(true).open("/dev/full").map_or_else(|_| Stdio::null(), Stdio::from));
+        }
+        Some("closed") => {
+            // a pipe whose read end is closed before the child starts
+            let mut fds = [0 as libc::c_int; 2];
+            if unsafe { libc::pipe(fds.as_mut_ptr()) } == 0 {
+                unsafe {
+                    libc::close(fds[0]);
+                }
+                use std::os::fd::FromRawFd;
+                cmd.stdout(unsafe { Stdio::from(std::fs::File::from_raw_fd(fds[1])) });
+            } else {
+                cmd.stdout(Stdio::null());
+            }
+        }
+        _ => {
+            cmd.stdout(Stdio::piped());
+        }
+    }
     if c.force_color {
         cmd.env("CLICOLOR_FORCE", "1");
     } else {
